@@ -61,6 +61,8 @@ JudgeCanon(e) ==
         If(e.scan_ok, "C12:canonical-form-not-json")
         \cup If(~e.scan_ok \/ canonOk \/ canonDs # {}, "C12:canonical-form")
         \cup If(~e.scan_ok \/ e.compact, "C12:whitespace-or-escapes")
+        \* the text itself, rendered by the specification (independent of the harness' renderer)
+        \cup If(~canonOk \/ ~CanonTextOk(want) \/ e.cbytes = TextBytes(want), "C12:canonical-text")
         \cup If(e.again_same, "C12:not-deterministic-in-process")
         \cup If(e.rabin = RabinBytes(e.cbytes), "C12:rabin")
         \cup If(e.spy = e.cbytes, "C12:digest-input")
